@@ -301,6 +301,25 @@ where
     }
 }
 
+/// Verification seam: the protocol sniffer and rewind buffer on their own.
+#[cfg(feature = "verif-hooks")]
+pub mod verif {
+    use super::{HttpProtocol, ReadVersion};
+    pub use crate::rewind::Rewind;
+    use hyper::rt::Read;
+
+    /// Run the sniffer to completion: `(is_http2, rewound stream)`.
+    pub async fn sniff<I: Read + Unpin>(io: I) -> std::io::Result<(bool, Rewind<I>)> {
+        let (version, rewind) = ReadVersion::new(io).await?;
+        Ok((version == HttpProtocol::Http2, rewind))
+    }
+
+    /// A rewind buffer with the given prefix.
+    pub fn rewind<I>(io: I, prefix: Vec<u8>) -> Rewind<I> {
+        Rewind::new(io, prefix)
+    }
+}
+
 #[cfg(test)]
 mod tests {
 
